@@ -457,9 +457,48 @@ def lfo_phase_edges(sid):
     return Script(sid, ops, {"module": "lfo", "family": "phase-edges", "fs": 1000.0})
 
 
+def lfo_inc(fs, f):
+    """the phase increment the crate computes for frequency f at sample rate fs (f32 arithmetic, truncating cast)"""
+    x = f32(f32(16777216.0 * f) / fs)
+    if math.isnan(x):
+        return 0
+    return int(max(0.0, min(4294967295.0, x)))
+
+
+def lfo_freq_boundaries(rng, sid):
+    """boundary values of the frequency -> increment map: pairs of ADJACENT f32 frequencies whose increments
+    differ, set one after the other with a few ticks in between (every change, however small, must take
+    effect from the next tick), at low and at ordinary increments"""
+    fs = rng.choice([100.0, 100.0, 1000.0, 48000.0, rand_fs(rng)])
+    fs = f32(fs)
+    ops = ["lfo.new " + hx(fs), "phase " + hx(f32(rng.uniform(0, 1)))]
+    for _ in range(12):
+        k = rng.choice([1, 2, 3, rng.randrange(1, 40), rng.randrange(1, 5000), rng.randrange(1, 1 << 22)])
+        x = f32(k * fs / 16777216.0)
+        # walk to the first float whose increment reaches k
+        for _ in range(64):
+            if lfo_inc(fs, x) >= k:
+                break
+            x = next_up(x)
+        for _ in range(64):
+            if lfo_inc(fs, next_down(x)) < k:
+                break
+            x = next_down(x)
+        lo, hi = next_down(x), x
+        if not (lfo_inc(fs, lo) < lfo_inc(fs, hi)) or hi > fs:
+            continue
+        seq = rng.choice([[hi, lo, hi], [lo, hi, lo], [hi, lo], [lo, hi]])
+        for fr in seq:
+            ops.append("freq " + hx(fr))
+            ops += ["tick"] * rng.randrange(2, 5)
+    return Script(sid, ops, {"module": "lfo", "family": "freq-boundaries", "fs": fs})
+
+
 def lfo_scripts(rng, n_hist, n_walk, n_ext):
     res = [lfo_script(rng, "lfo-h%d" % i, rng.randrange(50, 600)) for i in range(n_hist)]
     res.append(lfo_phase_edges("lfo-edges"))
+    for i in range(max(2, n_hist // 8)):
+        res.append(lfo_freq_boundaries(rng, "lfo-fb%d" % i))
     for i in range(n_walk):
         k = rng.randrange(1024)
         start = rng.choice([1.0 - 40 / 16777216.0, k / 1024.0 - 30 / 16777216.0 + (1.0 if k == 0 else 0.0), 0.25 - 2e-6, 0.75 - 2e-6, 0.5 - 2e-6,
